@@ -554,6 +554,7 @@ def fetch_symbols(ocp, spec):
             syms[n] = s
 
     bind(spec.names("state"), list(ocp.states), "states")
+    bind(spec.names("qstate"), list(ocp.qstates), "qstates")
     bind(spec.names("control"), list(ocp.controls), "controls")
     bind(spec.names("algebraic"), list(ocp.algebraics), "algebraics")
     for kind, acc in (("parameter", ocp.parameters), ("variable", ocp.variables)):
@@ -889,6 +890,9 @@ def run_seed(prop, seed, base_cfg):
         names = ["A", "B"][: cfg["n_actors"]]
         for a in names:
             ops, _ = G.gen_base(r, cfg)
+            if r.random() < cfg.get("p_shuffle_base", 0.5):
+                ops = G.shuffle_base(ops, r)  # the same declarations typed in another (legal) order
+                w.probe("base_declarations_shuffled")
             delayed = None
             vals = [i for i, op in enumerate(ops) if op["op"] == "set_value"]
             if vals and r.random() < cfg.get("p_delayed_value", 0.12):
